@@ -1,4 +1,13 @@
 """C07 — maximum, arg-maximum and thresholding of striped scores match their definitions."""
+import os
+import sys
+
+sys.path.insert(0, os.path.dirname(os.path.dirname(os.path.abspath(__file__))))
+
+
+def translate():
+    from translate import maxi_tables
+    return maxi_tables.run()
 
 
 def _fields(line):
@@ -40,14 +49,35 @@ SPEC = dict(
     group="maxi",
     props_file="C07.v",
     module="LMMaxi.C07",
+    more_props=[("C07Source.v", "LMMaxi.C07Source")],
+    translate=translate,
     harness_bin="maxi",
     ml_modules=["maxi_model"],
     n={"quick": 1000, "thorough": 12000},
     search_n={"quick": 3000, "thorough": 20000},
     nontrivial=nontrivial,
     histogram=histogram,
-    rule="corpus: one unique maximum in every column x first/last row of all-negative f32 and of u8 matrices "
-         "(1, 2, 5 rows), all-equal / all -inf / all +inf / signed-zero matrices, no rows, max_index around "
+    rule="Proof: 34 theorems of coq/maxi/C07.v + 5 of coq/maxi/C07Source.v, all inputs (no bound on rows): over an "
+         "abstract element type with a total preorder on the admissible values — generic max / argmax / threshold "
+         "meet max_spec / argmax_spec (designated cell in range and >= every cell) / threshold_spec (NoDup, "
+         "membership iff cell >= t), None exactly on the matrix without rows; argmax_f32_avx2, max_f32_avx2 "
+         "(repaired: starts from the first row), argmax_sse2 (any multiple of 16 columns) + Pipeline<Sse2>::max, "
+         "argmax_u8_avx2 (repaired column order), max_u8_avx2 each return Ok of an answer meeting the same "
+         "specification; every arm of the f32 and u8 dispatcher, the explicit guards (Panic 20/21), agreement of "
+         "all arms on the maximum value and on the threshold list; offsets (StripedScores::offset / Index / "
+         "argmax / threshold), unstripe and linear Scores::{max,argmax,threshold} (= the positions below "
+         "min(max_index, rows*C)); padding: wildcard column -inf => defined score of a window reaching past "
+         "the end is -inf (binary32 addition as it is) => with cells = defined scores every padding cell is "
+         "-inf, a maximum is the maximum over the valid positions and an arg-maximum designates one when "
+         "some valid score is finite. Order facts discharged for binary32 from Flocq's Bcompare/Bplus by a "
+         "lexicographic key (closed under the global context) and for u8 (Z). check_C07 (extracted, used by "
+         "the driver for PROPFAIL) is proved sound and complete (check_C07_sound / _complete, "
+         "model_passes_C07). C07Source.v: the dispatcher arm table, the Pipeline<Sse2/Avx2> overrides, the "
+         "permute2x128 operands/immediates/store offsets of argmax_u8_avx2 and the load/store offsets of the "
+         "f32 kernels, re-read from the source on every run (translate/maxi_tables.py), are those of the model. "
+         "Correspondence run — corpus: one unique maximum in every column x first/last row of all-negative f32 and "
+         "of u8 matrices (1, 2, 5 rows), maxima in rows >= 256 of 300/520-row matrices (row index wider than 8 "
+         "bits) and a low/high-row tie, all-equal / all -inf / all +inf / signed-zero matrices, no rows, max_index around "
          "u32::MAX, end-to-end padding cases with L around the 32-column block size. Generated: 40% "
          "StripedScores<f32,U32>, 30% <u8,U32>, 20% <f32,U16>, 10% end-to-end (ScoringMatrix with -inf "
          "wildcard column, half of them produced by the library's own count->frequency->log-odds "
@@ -64,11 +94,18 @@ SPEC = dict(
          "incl. exact coordinates and threshold order (DIFF). Non-trivial: distinct (kind, matrix, "
          "threshold) with at least one row / distinct end-to-end (matrix, sequence).",
     trusted_base=[
-        "Coq 8.16.1 kernel (coqc), Flocq 4.1.0 (BinarySingleNaN: Bcompare, Bplus) through coq/base/IEEE.v",
+        "Coq 8.16.1 kernel (coqc; coqchk in the thorough tier), vm_compute in the Examples and in the 32-lane "
+        "symbolic evaluation of the register-level steps",
+        "Flocq 4.1.0 BinarySingleNaN definitions (Bcompare, Bplus) through coq/base/IEEE.v: that they are IEEE "
+        "binary32 comparison/addition (the order lemmas themselves are proved, closed under the global context; "
+        "the two x + -inf lemmas mention F32.add and inherit Flocq's allow-listed Reals axioms)",
         "extraction: ExtrOcamlBasic only; OCaml 4.13.1",
         "hand-written OCaml driver ocaml/maxi/driver.ml (parsing, sorting of the reported threshold lists, "
-        "decoding offsets to coordinates, comparison)",
-        "Rust harness harness/src/bin/maxi.rs (builds StripedScores through the public API, catch_unwind)",
+        "decoding offsets to coordinates, the valid-position list of the end-to-end cases, comparison)",
+        "Rust harness harness/src/bin/maxi.rs (builds StripedScores through the public API, catch_unwind, "
+        "verif-hooks force_backend)",
+        "translator translate/maxi_tables.py (regex / brace-matching reader of dispatch.rs, pli/mod.rs, avx2.rs, "
+        "sse2.rs: match arms, overriding methods, wrapper -> kernel, permute2x128 immediates, load/store offsets)",
         "modelled, not verified: lane-wise semantics of the AVX2/SSE2 intrinsics used by the five kernels "
         "(load, cmp_ps LE, cmpgt_epi16, sub_epi16, blendv, and/andnot/or select, max_ps, max_epu8, "
         "unpacklo/hi_epi8, permute2x128, storeu), Rust's Iterator::max_by/max_by_key/reduce and f32::max; "
@@ -77,9 +114,12 @@ SPEC = dict(
     assumptions=[
         "f32 cells and thresholds are not NaN (the property's domain); u8 cells are in 0..255",
         "every row has C cells (DenseMatrix invariant), C > 0, C = 32 for the AVX2 kernels, C a multiple of 16 for SSE2",
-        "rows <= 2^32 for the f32 vector kernels (row indices are kept in 32-bit lanes); max_index <= u32::MAX and "
-        "rows <= 65536 are explicit panics of the code and of the model",
+        "rows <= 2^32 for the f32 vector kernels (row indices are kept in 32-bit lanes; hypothesis rows_fit32); "
+        "max_index <= u32::MAX and rows <= 65536 are explicit panics of the code and of the model "
+        "(C07_dispatch_guards), also on a matrix without rows",
         "padding claim: cell = defined score (property C01, re-validated bit-exactly on every end-to-end case), "
         "wildcard column -inf, no term and no partial sum of a score is NaN or +inf (checked on every case)",
+        "not covered: NEON kernels (not compiled on this host); matrices with more than 3000 rows are not "
+        "executed (the 16-bit row-index limit of argmax_u8_avx2 at 65536 rows is proved about the model only)",
     ],
 )
